@@ -359,3 +359,72 @@ package processor
 //@   site call os.Open #1:
 //@     assert [lookup-file-opened-only-below-the-lookups-directory] uf("confined", bool, arg0)
 //@ end
+
+// C02 (a `where` verdict depends on the event itself): the evaluator is handed
+// one row map that is REUSED for every row, so before a row is evaluated every
+// required field must have been stored for THIS row (a skipped store leaves the
+// previous row's value in the map).  Ghost whereStores counts the stores since
+// the last evaluation.
+//@ ghostdecl whereStores int
+//@ func (*whereProcessor).Process
+//@   props C02
+//@   assumecalleerequires
+//@   ghostinit ghost(0, "whereStores") == 0
+//@   loop 2:
+//@     invariant [no-store-pending-between-rows] ghost(0, "whereStores") == 0
+//@   loop 3:
+//@     invariant [one-store-per-required-field-so-far] ghost(0, "whereStores") == rangeindex + 1 && rangeindex + 1 <= len(requiredFields)
+//@   site mapupdate singleRow[field] #1:
+//@     assert [the-row-map-gets-this-rows-own-value] key == requiredFields[col] && value.Dtype == valuesOfRequiredFields[col][row].Dtype
+//@     ghostset ghost(0, "whereStores") = ghost(0, "whereStores") + 1
+//@   site call p.options.Evaluate #1:
+//@     assert [every-required-field-was-stored-for-this-row-before-it-is-evaluated] ghost(0, "whereStores") == len(requiredFields)
+//@     assert [the-reused-row-map-is-what-is-evaluated] arg1 == singleRow
+//@     ghostset ghost(0, "whereStores") = 0
+//@ end
+
+// C04 (an event is counted in the group of its OWN key): the group-by key of a
+// record is assembled from this record's columns, one read per group-by column
+// and record; the back-fill key part stands in only when THAT read failed (a
+// failure remembered from an earlier record or batch says nothing about this
+// one).  Ghosts gbReads / gbReadFailed: reads since the last key part was
+// written, and whether the last one failed.
+//@ ghostdecl gbReads int
+//@ ghostdecl gbReadFailed int
+//@ ghostdecl gbReadValue ref
+//@ func (*statsProcessor).processGroupByRequest
+//@   props C04
+//@   assumecalleerequires
+//@   ghostinit ghost(0, "gbReads") == 0 && ghost(0, "gbReadFailed") == 0
+//@   loop 1:
+//@     invariant [no-read-pending-between-records] ghost(0, "gbReads") == 0
+//@   loop 2:
+//@     invariant [no-read-pending-between-key-parts] ghost(0, "gbReads") == 0
+//@   site callret record.ReadColumn #1:
+//@     ghostset ghost(0, "gbReads") = ghost(0, "gbReads") + 1
+//@     ghostset ghost(0, "gbReadFailed") = ite(result1 != nil, 1, 0)
+//@     ghostset ghost(0, "gbReadValue") = result0
+//@   site store measureResults[idx] #2:
+//@     assert [a-failed-timestamp-read-is-replaced-by-a-back-fill-value-of-its-own-not-dereferenced] implies(tsErr != nil, fresh(tsCVal))
+//@   site call cValue.WriteToBytesWithType #1:
+//@     assert [each-key-part-comes-from-a-read-of-this-records-column] ghost(0, "gbReads") == 1
+//@     assert [back-fill-key-part-only-when-this-read-failed] implies(ghost(0, "gbReadFailed") == 0, arg0 == ghost(0, "gbReadValue"))
+//@     ghostset ghost(0, "gbReads") = 0
+//@ end
+
+// C05/C06 (a limit keeps the same rows however often the chain is read): a
+// two-pass command downstream rewinds the chain and streams it again.  A
+// rewound head counts from zero again, whatever form of head it is; a tail has
+// consumed its whole input and answers the second pass from its cached result,
+// so a rewind changes nothing of it (in particular not its end-of-input flag:
+// clearing it would append the re-streamed input behind the cached rows).
+//@ func (*headProcessor).Rewind
+//@   props C05 C06
+//@   requires p != nil && p.options != nil
+//@   ensures [a-rewound-head-counts-from-zero-again] p.numRecordsSent == 0 && !p.options.Done
+//@ end
+//@ func (*tailProcessor).Rewind
+//@   props C06
+//@   requires p != nil
+//@   pure
+//@ end
